@@ -80,6 +80,8 @@ static struct {
 	int64_t dl_ns;                /* absolute, -1 none */
 	int64_t notify_invoked;       /* step of first explicit notify invoke, -1 */
 	int64_t notify_returned;      /* step of first explicit notify return, -1 */
+	int64_t notify_returned_ns;   /* virtual time of that return, -1 */
+	int64_t settled_ns;           /* first virtual time at which the note had to be notified and no notify was in flight anywhere, -1 */
 	int notifies_in_flight;
 	int64_t first_true_obs_return;/* step at which an observation "notified" first returned, -1 */
 	int users;                    /* threads still going to use this note (C09) */
@@ -92,7 +94,7 @@ static struct {
 static int64_t hstep;                 /* harness event counter for invoke/return stamps */
 
 /* counter model */
-static struct { int64_t value; int64_t zero_step; } CM[MAXCTR];
+static struct { int64_t value; int64_t zero_step; int64_t zero_ns; } CM[MAXCTR];
 /* once model */
 static struct { int runs; int done; int returned; } OM[MAXONCE];
 
@@ -470,7 +472,15 @@ static void op_notify (op_t *o) {
 	nsync_note_notify (W.note[n]);
 	nsim_op_end ();
 	NM[n].notifies_in_flight--;
-	if (NM[n].notify_returned < 0) NM[n].notify_returned = ++hstep;
+	if (NM[n].notify_returned < 0) { NM[n].notify_returned = ++hstep; NM[n].notify_returned_ns = nsim_now_ns (); }
+	{
+		/* when nothing is in flight any more, every note that has to be notified is settled: its waiters have been released */
+		int m, inflight = 0;
+		for (m = 0; m < S.nnote; m++) inflight += NM[m].notifies_in_flight;
+		if (inflight == 0) for (m = 0; m < S.nnote; m++) {
+			if (NM[m].created == 1 && NM[m].settled_ns < 0 && note_must_be_notified (m, nsim_now_ns ())) NM[m].settled_ns = nsim_now_ns ();
+		}
+	}
 	{
 		int r;
 		int64_t inv = ++hstep;
@@ -596,6 +606,8 @@ static void create_note (int n) {
 	}
 	NM[n].notify_invoked = -1;
 	NM[n].notify_returned = -1;
+	NM[n].notify_returned_ns = -1;
+	NM[n].settled_ns = -1;
 	NM[n].notifies_in_flight = 0;
 	NM[n].first_true_obs_return = -1;
 	NM[n].freed = 0;
@@ -674,7 +686,7 @@ static void op_ctr_add (op_t *o) {
 	r = nsync_counter_add (W.ctr[c], delta);
 	nsim_op_end ();
 	if (nCH[c] < 64) { chist_t *h = &CH[c][nCH[c]++]; h->kind = 0; h->ctr = c; h->arg = delta; h->res = r; h->inv = inv; h->ret = ++hstep; }
-	if (r == 0 && CM[c].zero_step < 0) CM[c].zero_step = hstep;
+	if (r == 0 && CM[c].zero_step < 0) { CM[c].zero_step = hstep; CM[c].zero_ns = nsim_now_ns (); }
 }
 static void ctr_payload_read (void) {
 	int t;
@@ -887,8 +899,8 @@ static void world_init (void) {
 		W.obj[i] = (refobj_t *) nsim_alloc (sizeof (refobj_t));
 		nsync_mu_init (&W.obj[i]->mu);
 	}
-	for (i = 0; i < MAXNOTE; i++) { NM[i].inh_invoked = -1; NM[i].inh_returned = -1; NM[i].inh_dl = -1; NM[i].parent = -1; NM[i].dl_ns = -1; NM[i].notify_invoked = -1; NM[i].notify_returned = -1; NM[i].first_true_obs_return = -1; }
-	for (i = 0; i < MAXCTR; i++) CM[i].zero_step = -1;
+	for (i = 0; i < MAXNOTE; i++) { NM[i].inh_invoked = -1; NM[i].inh_returned = -1; NM[i].inh_dl = -1; NM[i].parent = -1; NM[i].dl_ns = -1; NM[i].notify_invoked = -1; NM[i].notify_returned = -1; NM[i].notify_returned_ns = -1; NM[i].settled_ns = -1; NM[i].first_true_obs_return = -1; }
+	for (i = 0; i < MAXCTR; i++) { CM[i].zero_step = -1; CM[i].zero_ns = -1; }
 	for (i = 0; i < S.nvar; i++) for (j = 0; j < 8; j++) { cargs_shared[i][j].mi = 0; cargs_shared[i][j].var = i; cargs_shared[i][j].k = j; }
 	/* users per note */
 	for (t = 0; t < S.nthreads; t++) for (i = 0; i < S.nnote; i++) {
@@ -907,7 +919,7 @@ static void world_init (void) {
 			if (W.ctr[i] != NULL) VIOL ("C19", "ctor-not-null", "nsync_counter_new returned non-NULL although its allocation failed");
 		} else if (W.ctr[i] == NULL) VIOL ("C19", "ctor-null", "nsync_counter_new returned NULL although no allocation failed");
 		CM[i].value = S.ctr_init[i];
-		if (S.ctr_init[i] == 0) CM[i].zero_step = 0;
+		if (S.ctr_init[i] == 0) { CM[i].zero_step = 0; CM[i].zero_ns = nsim_start_ns (); }
 	}
 }
 
